@@ -168,6 +168,7 @@ class FsScenario(Scenario):
             if self.with_probes and real is not None and "root" in run.model.t:
                 run.phase = "probe"
                 res["probes"] = self.do_probes(run, sim, real)
+                res["probes_filtered"] = res["probes"].get("filtered_missing")
             run.phase = "teardown"
             obs.stop()
             obs.join()
@@ -516,3 +517,123 @@ class C19(FsScenario):
         if bad:
             v.append(Violation("path-name", f"C19:path-does-not-name-entry:{run.w['root_kind']}:{run.w['spelling']}:{run.w.get('backend', 'inotify')}", f"{bad[:3]} with root {run.w}; ops={run.case['ops']}"))
         return v
+
+
+EVENT_CLASSES = ["FileCreatedEvent", "FileDeletedEvent", "FileModifiedEvent", "FileMovedEvent", "FileClosedEvent", "FileClosedNoWriteEvent", "FileOpenedEvent",
+                 "DirCreatedEvent", "DirDeletedEvent", "DirModifiedEvent", "DirMovedEvent"]
+BASE_CLASSES = ["FileSystemEvent", "FileSystemMovedEvent"]
+
+
+def _collapse(seq):
+    out = []
+    for x in seq:
+        if not out or out[-1] != x:
+            out.append(x)
+    return out
+
+
+class C11(FsScenario):
+    prop = "C11"
+    design_ref = "DESIGN.md 4/C11"
+    rule = ("FS-world with twin watches on one observer: (root, flags, filter=None) and (root, flags, filter=F); F cycles with the run index through every concrete event class, both base "
+            "classes, all pairs and random larger subsets; histories of C01 (70% paced); distinct = distinct (history, filter, interleaving) digests; non-trivial = pre-emption taken or fault fired")
+    level_text = ("Filter relation checked where it is schedule-independent: per paced operation the filtered stream equals the unfiltered stream restricted to instances of F (after collapsing "
+                  "adjacent identical events); every filtered event is an instance of F and justified by the history; with a deletion class in F a move out is reported as deleted; probes "
+                  "in directories created or moved in after start are reported through the filtered watch when F contains the class the probe produces; with created/deleted/moved classes in F "
+                  "the filtered stream passes the C01 replay.")
+    level_note = C01.level_note
+    paced_share = 0.7
+    nonrec_share = 0.15
+    full_share = 0.2
+
+    def filter_for(self, idx, rng):
+        singles = [[c] for c in EVENT_CLASSES + BASE_CLASSES]
+        pairs = [[a, b] for i, a in enumerate(EVENT_CLASSES + BASE_CLASSES) for b in (EVENT_CLASSES + BASE_CLASSES)[i + 1:]]
+        space = singles + pairs
+        k = idx % (len(space) + 30)
+        if k < len(space):
+            return space[k]
+        return sorted(rng.sample(EVENT_CLASSES, rng.randrange(3, 8)))
+
+    def gen_case(self, seed, tier, idx):
+        case = super().gen_case(seed, tier, idx)
+        case["watch"]["twin_filter"] = self.filter_for(idx, random.Random(f"{seed}:filter"))
+        return case
+
+    def judge(self, run, res, sim, verdict):
+        import watchdog.events as wev
+
+        v = generic_violations("C11", sim, verdict, res)
+        if not res.get("done"):
+            return v
+        F = run.w["twin_filter"]
+        classes = tuple(getattr(wev, n) for n in F)
+        fname = "+".join(F)
+
+        def passes(e):
+            return isinstance(e["ev"], classes)
+
+        # (ii) every filtered event is an instance of F and is sound
+        for e in run.events:
+            if e["h"] == 1 and e["phase"] == "ops" and not passes(e):
+                v.append(Violation("filter", "C11:filtered-watch-delivered-non-member", f"{e['shape']} is not an instance of {F}"))
+                break
+        bad = run.oracle_sound(handler=1)
+        if bad:
+            v.append(Violation("filter", "C11:filtered-event-unjustified", f"{[b['shape'] for b in bad[:3]]} with filter {F}; ops={run.case['ops']}"))
+        # (i) paced operations: filtered == unfiltered restricted to F
+        for c in run.contracts:
+            if not (c["drained"] and c["clean_start"]):
+                continue
+            un = _collapse([e["shape"] for e in run.events if e["h"] == 0 and e["opi"] == c["opi"] and e["phase"] == "ops" and passes(e)])
+            fi = _collapse([e["shape"] for e in run.events if e["h"] == 1 and e["opi"] == c["opi"] and e["phase"] == "ops"])
+            if un != fi:
+                missing = [x for x in un if x not in fi]
+                extra = [x for x in fi if x not in un]
+                what = ("missing" if missing else "") + ("extra" if extra else "") + ("" if missing or extra else "order")
+                kinds = sorted({f"{'dir' if x[1] else 'file'}-{x[0]}" for x in (missing or extra or un)})
+                v.append(Violation("filter", f"C11:filtered!=restricted-unfiltered:{what}", f"filter {F}, op {c['op']}: unfiltered restricted {un} but filtered watch delivered {fi}; history={run.case['ops']}"))
+                break
+        # (iv) replay of the filtered stream when F contains created, deleted and moved classes of both flavours
+        need = {"FileCreatedEvent", "DirCreatedEvent", "FileDeletedEvent", "DirDeletedEvent", "FileMovedEvent", "DirMovedEvent"}
+        covered = need <= set(F) or "FileSystemEvent" in F
+        if covered and run.backend == "inotify":
+            d = run.oracle_replay(res["tree0"], handler=1) if "root" in run.model.t else None
+            if d:
+                v.append(Violation("filter", "C11:filtered-stream-fails-replay", f"filter {F}: {d}; ops={run.case['ops']}"))
+        pr = res.get("probes_filtered")
+        if pr:
+            v.append(Violation("filter", f"C11:filtered-watch-misses-probe:{fname if len(F) == 1 else 'multi'}", f"filter {F}: probes in {pr} not reported through the filtered watch; ops={run.case['ops']}"))
+        return v
+
+    def do_probes(self, run, sim, real):
+        """Probe = create + append + delete a file in every directory; the filtered watch must report whatever
+        the unfiltered watch reports for it and F accepts."""
+        import os
+
+        import watchdog.events as wev
+
+        F = run.w["twin_filter"]
+        classes = tuple(getattr(wev, n) for n in F)
+        missing = []
+        for d in probe_dirs(run, real):
+            if not (run.recursive or d == "root"):
+                continue
+            n0 = len(run.events)
+            pp = d + "/" + PROBE
+            sim.yield_point("probe")
+            with open(run.real(pp), "w"):
+                pass
+            with open(run.real(pp), "a") as f:
+                f.write("x")
+            os.unlink(run.real(pp))
+            sim.wait_quiescent()
+            un = {e["shape"] for e in run.events[n0:] if e["h"] == 0 and isinstance(e["ev"], classes)}
+            fi = {e["shape"] for e in run.events[n0:] if e["h"] == 1}
+            if un - fi:
+                missing.append(d)
+        run.res_probes_filtered = missing
+        return {"missing": [], "wrong_path": [], "unexpected": [], "filtered_missing": missing}
+
+    def after_ops(self, run, res, sim):
+        pass
